@@ -3,6 +3,7 @@ package libp2pwebtransport
 import (
 	"errors"
 	"net"
+	"time"
 
 	"github.com/libp2p/go-libp2p/core/network"
 
@@ -65,9 +66,20 @@ func (s stream) Write(b []byte) (n int, err error) {
 }
 
 func (s stream) Reset() error {
+	s.cancel()
+	return nil
+}
+
+// cancel aborts both directions of the stream.
+//
+// A Read or Write that found the session gone waits inside webtransport-go for
+// the session to be closed, and is released only by that or by its deadline.
+// CancelRead and CancelWrite detach the stream from the session, so a call
+// already waiting there would never be woken: expire the deadlines as well.
+func (s stream) cancel() {
 	s.Stream.CancelRead(reset)
 	s.Stream.CancelWrite(reset)
-	return nil
+	s.Stream.SetDeadline(time.Unix(0, 1))
 }
 
 // ResetWithError resets the stream ignoring the error code. Error codes aren't
@@ -76,8 +88,7 @@ func (s stream) Reset() error {
 // only supports 1 byte error codes. For more details, see
 // https://github.com/libp2p/specs/blob/4eca305185c7aef219e936bef76c48b1ab0a8b43/error-codes/README.md?plain=1#L84
 func (s stream) ResetWithError(_ network.StreamErrorCode) error {
-	s.Stream.CancelRead(reset)
-	s.Stream.CancelWrite(reset)
+	s.cancel()
 	return nil
 }
 
